@@ -152,6 +152,8 @@ class Ctx:
     self.cur_case = None
     self.t0 = time.time()
     self.notes = {}
+    self.xproc_child = False   # True inside a fresh-interpreter replay child (vmon.xproc)
+    self.only_cases = None     # set of case ids: run exactly these, whatever the shard assignment (xproc children)
 
   # ---------------------------------------------------------------- randomness
   def rng(self, *names) -> np.random.RandomState:
@@ -165,7 +167,10 @@ class Ctx:
     """Yields (case_id, rng) for indices of this shard in range(n)."""
     for i in range(n):
       cid = f'{family}/{i}'
-      if self.replay_case is not None:
+      if self.only_cases is not None:
+        if cid not in self.only_cases:
+          continue
+      elif self.replay_case is not None:
         if cid != self.replay_case:
           continue
       elif i % self.nshards != self.shard:
@@ -178,7 +183,10 @@ class Ctx:
     """Yields (case_id, item) for this shard's share of an enumerated space."""
     for i, item in enumerate(iterable):
       cid = f'{family}/{i}'
-      if self.replay_case is not None:
+      if self.only_cases is not None:
+        if cid not in self.only_cases:
+          continue
+      elif self.replay_case is not None:
         if cid != self.replay_case:
           continue
       elif i % self.nshards != self.shard:
